@@ -25,11 +25,20 @@ structure SndInv (x : Snd) : Prop where
 
 structure CtlInv (e : Ep) : Prop where
   drained : e.st = stShutdownSent ∨ e.st = stShutdownAckSent → Drained e.snd
-  wscSt : e.wSC = true → e.dead = false → e.st = stShutdownSent ∨ e.st = stShutdownAckSent
+  scpSt : e.scp = true → e.dead = false → e.st = stShutdownSent ∨ e.st = stShutdownAckSent
   wscScp : e.wSC = true → e.scp = true
   deadSt : e.dead = true ↔ e.st = stClosed
-  sdRet : e.sd = 2 → e.dead = true ∧ (e.connFailed = true ∨ Drained e.snd)
+  sdRet : e.sd = 2 → Drained e.snd
   sdGate : e.sd ≠ 0 → e.st ≠ stEstablished ∧ e.snd.wlog.length = e.callAt
+  scrDead : e.scr = true → e.dead = true
+  sdDead : e.sd = 2 ∨ e.sd = 3 → e.dead = true
+  deadSd : e.dead = true → e.sd ≠ 1
+
+/-- SHUTDOWN-ACK or SHUTDOWN-COMPLETE received by a live endpoint: it is drained -/
+theorem CtlInv.completed {e : Ep} (h : CtlInv e) (hnd : e.dead = false) (hc : e.scp = true ∨ e.scr = true) : Drained e.snd := by
+  rcases hc with hc | hc
+  · exact h.drained (h.scpSt hc hnd)
+  · have := h.scrDead hc; rw [hnd] at this; cases this
 
 /-- a closure report is only made by a dead endpoint, after everything readable on that stream was read -/
 def EofInv (dead : Bool) (r : Rcv) : Prop :=
@@ -46,26 +55,44 @@ theorem hasData_false (e : Ep) (h : SndInv e.snd) (hd : e.hasData = false) : Dra
   exact ⟨hd.1, by have := h.cumLe; omega⟩
 
 theorem init_inv : EpInv ({} : Ep) := by
-  refine ⟨⟨by simp, by simp, by simp, by simp, ?_⟩, ⟨by simp, by simp, by simp, by simp, by simp, by simp⟩, ?_⟩
+  refine ⟨⟨by simp, by simp, by simp, by simp, ?_⟩, ⟨by simp, by simp, by simp, by simp, by simp, by simp, by simp, by simp, by simp⟩, ?_⟩
   · intro s; simp [onStream]
   · intro s k h; simp at h
 
 /-! ### close -/
-theorem close_ctl (e : Ep) (h : CtlInv e) (hd : e.sd = 1 → e.connFailed = true ∨ Drained e.snd) : CtlInv (close e) := by
-  obtain ⟨h1, h2, h3, h4, h5, h6⟩ := h
-  refine ⟨by simp [close], by simp [close], h3, by simp [close], ?_, ?_⟩
+theorem close_ctl (e : Ep) (h : CtlInv e) (hd : e.sd = 1 → e.scp = true ∨ e.scr = true → Drained e.snd) : CtlInv (close e) := by
+  obtain ⟨h1, h2, h3, h4, h5, h6, h7, h8, h9⟩ := h
+  refine ⟨by simp [close], by simp [close], h3, by simp [close], ?_, ?_, fun _ => rfl, fun _ => rfl, ?_⟩
   · intro hs
     simp only [close] at hs
-    refine ⟨rfl, ?_⟩
-    show e.connFailed = true ∨ Drained e.snd
+    show Drained e.snd
     by_cases h1' : e.sd = 1
-    · exact hd h1'
+    · simp only [h1', beq_self_eq_true, if_true] at hs
+      by_cases hc : (e.scp || e.scr) = true
+      · exact hd h1' (by simpa using hc)
+      · simp [hc] at hs
     · have : e.sd = 2 := by simpa [h1'] using hs
-      exact (h5 this).2
+      exact h5 this
   · intro hs
     have : e.sd ≠ 0 := by
       intro h0; apply hs; simp [close, h0]
     exact ⟨by simp [close], (h6 this).2⟩
+  · intro _ hs
+    simp only [close] at hs
+    by_cases h1' : e.sd = 1
+    · simp only [h1', beq_self_eq_true, if_true] at hs
+      split at hs <;> cases hs
+    · simp [h1'] at hs
+
+/-- closing a live endpoint that satisfies the invariant -/
+theorem close_ctl_live (e : Ep) (h : CtlInv e) (hnd : e.dead = false) : CtlInv (close e) :=
+  close_ctl e h (fun _ hc => h.completed hnd hc)
+
+/-- closing any endpoint that satisfies the invariant (a dead one has no Shutdown call waiting) -/
+theorem close_ctl_any (e : Ep) (h : CtlInv e) : CtlInv (close e) := by
+  cases hd : e.dead
+  · exact close_ctl_live e h hd
+  · exact close_ctl e h (fun h1 _ => absurd h1 (h.deadSd hd))
 
 theorem close_eof (e : Ep) (h : EofInv e.dead e.rcv) : EofInv (close e).dead (close e).rcv := by
   intro s k hk
@@ -75,17 +102,17 @@ theorem close_eof (e : Ep) (h : EofInv e.dead e.rcv) : EofInv (close e).dead (cl
 /-! ### flag-only transitions -/
 theorem advance_ctl (e : Ep) (state : Nat) (hs : SndInv e.snd) (h : CtlInv e) (hst : state = e.st) :
     CtlInv (advance e state) := by
-  obtain ⟨h1, h2, h3, h4, h5, h6⟩ := h
+  obtain ⟨h1, h2, h3, h4, h5, h6, h7, h8, h9⟩ := h
   subst hst
   simp only [advance]
   split
-  · exact ⟨h1, h2, h3, h4, h5, h6⟩
+  · exact ⟨h1, h2, h3, h4, h5, h6, h7, h8, h9⟩
   · rename_i hd
     have hD := hasData_false e hs (by simpa using hd)
     split
     · rename_i hp
       have hp : e.st = 5 := by simpa using hp
-      refine ⟨fun _ => hD, fun _ _ => Or.inl rfl, h3, ?_, h5, ?_⟩
+      refine ⟨fun _ => hD, fun _ _ => Or.inl rfl, h3, ?_, h5, ?_, h7, h8, h9⟩
       · simp only [stClosed]; constructor
         · intro hdd; have := h4.1 hdd; simp [hp] at this
         · intro hc; simp at hc
@@ -93,23 +120,24 @@ theorem advance_ctl (e : Ep) (state : Nat) (hs : SndInv e.snd) (h : CtlInv e) (h
     · split
       · rename_i hp
         have hp : e.st = 6 := by simpa using hp
-        refine ⟨fun _ => hD, fun _ _ => Or.inr rfl, h3, ?_, h5, ?_⟩
+        refine ⟨fun _ => hD, fun _ _ => Or.inr rfl, h3, ?_, h5, ?_, h7, h8, h9⟩
         · simp only [stClosed]; constructor
           · intro hdd; have := h4.1 hdd; simp [hp] at this
           · intro hc; simp at hc
         · intro hsd; exact ⟨by simp, (h6 hsd).2⟩
-      · exact ⟨h1, h2, h3, h4, h5, h6⟩
+      · exact ⟨h1, h2, h3, h4, h5, h6, h7, h8, h9⟩
 
 /-- what `CtlInv` looks at -/
 def ctlCore (e : Ep) : Snd × Nat × Bool × Bool × Bool × Nat × Bool × Nat :=
-  (e.snd, e.st, e.wSC, e.scp, e.dead, e.sd, e.connFailed, e.callAt)
+  (e.snd, e.st, e.wSC, e.scp, e.dead, e.sd, e.scr, e.callAt)
 
 theorem CtlInv.congr {e e' : Ep} (h : CtlInv e) (hc : ctlCore e' = ctlCore e) : CtlInv e' := by
   simp only [ctlCore, Prod.mk.injEq] at hc
   obtain ⟨c1, c2, c3, c4, c5, c6, c7, c8⟩ := hc
-  obtain ⟨h1, h2, h3, h4, h5, h6⟩ := h
-  exact ⟨by rw [c1, c2]; exact h1, by rw [c2, c3, c5]; exact h2, by rw [c3, c4]; exact h3, by rw [c2, c5]; exact h4,
-    by rw [c1, c5, c6, c7]; exact h5, by rw [c1, c2, c6, c8]; exact h6⟩
+  obtain ⟨h1, h2, h3, h4, h5, h6, h7, h8, h9⟩ := h
+  exact ⟨by rw [c1, c2]; exact h1, by rw [c2, c4, c5]; exact h2, by rw [c3, c4]; exact h3, by rw [c2, c5]; exact h4,
+    by rw [c1, c6]; exact h5, by rw [c1, c2, c6, c8]; exact h6, by rw [c7, c5]; exact h7, by rw [c6, c5]; exact h8,
+    by rw [c6, c5]; exact h9⟩
 
 theorem handleData_core (e : Ep) (t m s k : Nat) : ctlCore (handleData e t m s k) = ctlCore e := by
   simp only [handleData, ctlCore]; (repeat' split) <;> rfl
@@ -127,37 +155,52 @@ theorem retransmitShutdownAck_core (e : Ep) : ctlCore (retransmitShutdownAck e) 
 theorem startPkt_core (e : Ep) : ctlCore { e with imm := false, del := false } = ctlCore e := rfl
 
 theorem gatherShut_ctl (e : Ep) (h : CtlInv e) : CtlInv (gatherShut e).1 := by
-  obtain ⟨h1, h2, h3, h4, h5, h6⟩ := h
+  obtain ⟨h1, h2, h3, h4, h5, h6, h7, h8, h9⟩ := h
   simp only [gatherShut]
-  (repeat' split) <;> exact ⟨h1, by simp_all, by simp_all, h4, h5, h6⟩
+  (repeat' split) <;> exact ⟨h1, h2, by simp_all, h4, h5, h6, h7, h8, h9⟩
 
 theorem handleShutdownAck_ctl (e : Ep) (h : CtlInv e) : CtlInv (handleShutdownAck e) := by
-  obtain ⟨h1, h2, h3, h4, h5, h6⟩ := h
+  obtain ⟨h1, h2, h3, h4, h5, h6, h7, h8, h9⟩ := h
   simp only [handleShutdownAck]
   split
   · rename_i hs
-    exact ⟨h1, fun _ _ => by simpa using hs, fun _ => rfl, h4, h5, h6⟩
-  · exact ⟨h1, h2, h3, h4, h5, h6⟩
+    exact ⟨h1, fun _ _ => by simpa using hs, fun _ => rfl, h4, h5, h6, h7, h8, h9⟩
+  · exact ⟨h1, h2, h3, h4, h5, h6, h7, h8, h9⟩
 
 theorem handleShutdownComplete_ctl (e : Ep) (h : CtlInv e) : CtlInv (handleShutdownComplete e) := by
   simp only [handleShutdownComplete]
   split
   · rename_i hs
     have hs : e.st = 4 := by simpa using hs
-    apply close_ctl
-    · exact h.congr rfl
-    · intro _; right; exact h.drained (Or.inr hs)
+    obtain ⟨h1, h2, h3, h4, h5, h6, h7, h8, h9⟩ := h
+    have hnd : e.dead = false := by
+      cases hd : e.dead
+      · rfl
+      · have := h4.1 hd; simp [hs] at this
+    have hD := h1 (Or.inr hs)
+    -- close sets everything the invariant says about scr / sd / dead
+    refine ⟨by simp [close], by simp [close], h3, by simp [close], ?_, ?_, fun _ => rfl, fun _ => rfl, ?_⟩
+    · intro _; exact hD
+    · intro hsd
+      have : e.sd ≠ 0 := by
+        intro h0; apply hsd; simp [close, h0]
+      exact ⟨by simp [close], (h6 this).2⟩
+    · intro _ hsd
+      simp only [close] at hsd
+      by_cases h1' : e.sd = 1
+      · simp [h1'] at hsd
+      · simp [h1'] at hsd
   · exact h
 
 theorem handleShutdownComplete_eof (e : Ep) (h : EofInv e.dead e.rcv) :
     EofInv (handleShutdownComplete e).dead (handleShutdownComplete e).rcv := by
   simp only [handleShutdownComplete]
   split
-  · exact close_eof { e with t2 := t2stop e.t2 } h
+  · exact close_eof { e with t2 := t2stop e.t2, scr := true } h
   · exact h
 
 theorem shutdownCall_ctl (e : Ep) (hs : SndInv e.snd) (h : CtlInv e) : CtlInv (shutdownCall e).1 := by
-  obtain ⟨h1, h2, h3, h4, h5, h6⟩ := h
+  obtain ⟨h1, h2, h3, h4, h5, h6, h7, h8, h9⟩ := h
   simp only [shutdownCall]
   split
   · rename_i he
@@ -166,26 +209,26 @@ theorem shutdownCall_ctl (e : Ep) (hs : SndInv e.snd) (h : CtlInv e) : CtlInv (s
       cases hd : e.dead
       · rfl
       · have := h4.1 hd; simp [he] at this
-    have hw : e.wSC = false := by
-      cases hw : e.wSC
+    have hscp : e.scp = false := by
+      cases hw : e.scp
       · rfl
       · have := h2 hw hnd; simp [he] at this
     split
-    · refine ⟨by simp, by simp [hw], h3, by simp [hnd], by simp, by simp⟩
+    · refine ⟨by simp, by simp [hscp], h3, by simp [hnd], by simp, by simp, h7, by simp, by simp [hnd]⟩
     · rename_i hd
       have hD := hasData_false { e with st := stShutdownPending, sd := 1, callAt := e.snd.wlog.length } hs (by simpa using hd)
-      refine ⟨fun _ => hD, by simp, h3, by simp [hnd], by simp, by simp⟩
-  · exact ⟨h1, h2, h3, h4, h5, h6⟩
+      refine ⟨fun _ => hD, by simp, h3, by simp [hnd], by simp, by simp, h7, by simp, by simp [hnd]⟩
+  · exact ⟨h1, h2, h3, h4, h5, h6, h7, h8, h9⟩
 
 /-- moving the cumulative ack point forward inside the in-flight range, in a state that still sends data -/
 theorem setCum_inv (e : Ep) (c : Nat) (hs : SndInv e.snd) (h : CtlInv e) (hc : c ≤ e.snd.sentq.length)
     (hst : e.st = 3 ∨ e.st = 5 ∨ e.st = 6) :
     SndInv { e.snd with cum := c } ∧ CtlInv { e with snd := { e.snd with cum := c } } := by
-  obtain ⟨h1, h2, h3, h4, h5, h6⟩ := h
-  refine ⟨⟨hc, hs.wlogIn, hs.sentIn, hs.pendIn, hs.wlogOk⟩, ?_, h2, h3, h4, ?_, h6⟩
+  obtain ⟨h1, h2, h3, h4, h5, h6, h7, h8, h9⟩ := h
+  refine ⟨⟨hc, hs.wlogIn, hs.sentIn, hs.pendIn, hs.wlogOk⟩, ?_, h2, h3, h4, ?_, h6, h7, h8, h9⟩
   · intro hx; simp only [stShutdownSent, stShutdownAckSent] at hx; omega
   · intro hsd
-    have := h4.1 (h5 hsd).1
+    have := h4.1 (h8 (Or.inl hsd))
     simp only [stClosed] at this; omega
 
 theorem ackRange (e : Ep) (c : Nat) (hs : SndInv e.snd) (h1 : ¬ c < e.snd.cum)
@@ -240,7 +283,7 @@ theorem ackCum_inv (e e' : Ep) (c : Nat) (hs : SndInv e.snd) (h : CtlInv e) (hst
 
 theorem finishShutdown_inv (e : Ep) (state : Nat) (hs : SndInv e.snd) (h : CtlInv e) (hnc : e.st ≠ 0)
     (hscp : e.scp = false) : CtlInv (finishShutdown e state) := by
-  obtain ⟨h1, h2, h3, h4, h5, h6⟩ := h
+  obtain ⟨h1, h2, h3, h4, h5, h6, h7, h8, h9⟩ := h
   have hnd : e.dead = false := by
     cases hd : e.dead
     · rfl
@@ -248,28 +291,26 @@ theorem finishShutdown_inv (e : Ep) (state : Nat) (hs : SndInv e.snd) (h : CtlIn
   simp only [finishShutdown]
   split
   · split
-    · refine ⟨by simp, fun hw _ => ?_, h3, by simp [hnd], ?_, fun hsd => ⟨by simp, (h6 hsd).2⟩⟩
-      · have := h3 hw; simp [hscp] at this
-      · intro hsd; have := (h5 hsd).1; simp [hnd] at this
+    · refine ⟨by simp, fun hw _ => ?_, h3, by simp [hnd], h5, fun hsd => ⟨by simp, (h6 hsd).2⟩, h7, h8, h9⟩
+      rw [hscp] at hw; cases hw
     · rename_i hd
       have hD := hasData_false e hs (by simpa using hd)
-      exact ⟨fun _ => hD, fun _ _ => Or.inr rfl, h3, by simp [hnd], fun hsd => ⟨(h5 hsd).1, Or.inr hD⟩,
-        fun hsd => ⟨by simp, (h6 hsd).2⟩⟩
-  · exact ⟨h1, h2, h3, h4, h5, h6⟩
+      exact ⟨fun _ => hD, fun _ _ => Or.inr rfl, h3, by simp [hnd], h5,
+        fun hsd => ⟨by simp, (h6 hsd).2⟩, h7, h8, h9⟩
+  · exact ⟨h1, h2, h3, h4, h5, h6, h7, h8, h9⟩
 
 theorem enterReceived_inv (e : Ep) (h : CtlInv e) (hst : e.st = 3 ∨ e.st = 5 ∨ e.st = 6) (hscp : e.scp = false) :
     CtlInv (enterReceived e) ∧ ((enterReceived e).st = 3 ∨ (enterReceived e).st = 5 ∨ (enterReceived e).st = 6) := by
-  obtain ⟨h1, h2, h3, h4, h5, h6⟩ := h
+  obtain ⟨h1, h2, h3, h4, h5, h6, h7, h8, h9⟩ := h
   have hnd : e.dead = false := by
     cases hd : e.dead
     · rfl
     · have := h4.1 hd; simp only [stClosed] at this; omega
   simp only [enterReceived]
   split
-  · refine ⟨⟨by simp, fun hw _ => ?_, h3, by simp [hnd], ?_, fun hsd => ⟨by simp, (h6 hsd).2⟩⟩, by simp⟩
-    · have := h3 hw; simp [hscp] at this
-    · intro hsd; have := (h5 hsd).1; simp [hnd] at this
-  · exact ⟨⟨h1, h2, h3, h4, h5, h6⟩, hst⟩
+  · refine ⟨⟨by simp, fun hw _ => ?_, h3, by simp [hnd], h5, fun hsd => ⟨by simp, (h6 hsd).2⟩, h7, h8, h9⟩, by simp⟩
+    rw [hscp] at hw; cases hw
+  · exact ⟨⟨h1, h2, h3, h4, h5, h6, h7, h8, h9⟩, hst⟩
 
 theorem handleShutdown_inv (e : Ep) (c : Nat) (hs : SndInv e.snd) (h : CtlInv e) :
     SndInv (handleShutdown e c).snd ∧ CtlInv (handleShutdown e c) := by
@@ -284,13 +325,13 @@ theorem handleShutdown_inv (e : Ep) (c : Nat) (hs : SndInv e.snd) (h : CtlInv e)
     · split
       · rename_i hst
         have hst : e.st = 7 := by simpa using hst
-        obtain ⟨h1, h2, h3, h4, h5, h6⟩ := h
+        obtain ⟨h1, h2, h3, h4, h5, h6, h7, h8, h9⟩ := h
         have hnd : e.dead = false := by
           cases hd : e.dead
           · rfl
           · have := h4.1 hd; simp [hst] at this
-        refine ⟨hs, fun _ => h1 (Or.inl hst), fun _ _ => Or.inr rfl, h3, by simp [hnd], ?_, fun hsd => ⟨by simp, (h6 hsd).2⟩⟩
-        intro hsd; have := (h5 hsd).1; simp [hnd] at this
+        exact ⟨hs, fun _ => h1 (Or.inl hst), fun _ _ => Or.inr rfl, h3, by simp [hnd], h5, fun hsd => ⟨by simp, (h6 hsd).2⟩,
+          h7, h8, h9⟩
       · split
         · exact ⟨hs, h⟩
         · rename_i hg
@@ -303,18 +344,21 @@ theorem handleShutdown_inv (e : Ep) (c : Nat) (hs : SndInv e.snd) (h : CtlInv e)
           split
           · -- error return: the state is put back
             refine ⟨hEs, ?_⟩
-            obtain ⟨h1, h2, h3, h4, h5, h6⟩ := h
+            obtain ⟨h1, h2, h3, h4, h5, h6, h7, h8, h9⟩ := h
             have hnd : e.dead = false := by
               cases hd : e.dead
               · rfl
               · have := h4.1 hd; simp only [stClosed] at this; omega
-            refine ⟨?_, ?_, ?_, ?_, ?_, ?_⟩
+            refine ⟨?_, ?_, ?_, ?_, ?_, ?_, ?_, ?_, ?_⟩
             · simp only [enterReceived_snd]; exact h1
             · simp only [enterReceived]; split <;> exact h2
             · simp only [enterReceived]; split <;> exact h3
             · simp only [enterReceived_dead]; exact h4
             · simp only [enterReceived]; split <;> exact h5
             · simp only [enterReceived]; split <;> exact h6
+            · simp only [enterReceived]; split <;> exact h7
+            · simp only [enterReceived]; split <;> exact h8
+            · simp only [enterReceived]; split <;> exact h9
           · rename_i e2 ha
             have hA := ackCum_inv _ _ c hEs hE.1 hE.2 ha
             rw [finishShutdown_snd]
@@ -352,10 +396,10 @@ theorem sendOne_inv (e : Ep) (tm : Nat × Nat) (hs : SndInv e.snd) (h : CtlInv e
       · rename_i c hf
         have hc : c ∈ e.snd.pend := List.mem_of_find?_eq_some hf
         obtain ⟨s1, s2, s3, s4, s5⟩ := hs
-        obtain ⟨h1, h2, h3, h4, h5, h6⟩ := h
+        obtain ⟨h1, h2, h3, h4, h5, h6, h7, h8, h9⟩ := h
         have hnD : ¬ Drained e.snd := by
           intro hD; rw [hD.1] at hc; simp at hc
-        refine ⟨⟨?_, ?_, ?_, ?_, s5⟩, ?_, h2, h3, h4, ?_, h6⟩
+        refine ⟨⟨?_, ?_, ?_, ?_, s5⟩, ?_, h2, h3, h4, ?_, h6, h7, h8, h9⟩
         · simp only [List.length_append, List.length_singleton]; omega
         · intro w hw
           rcases s2 w hw with hw | hw
@@ -370,11 +414,7 @@ theorem sendOne_inv (e : Ep) (tm : Nat × Nat) (hs : SndInv e.snd) (h : CtlInv e
           · rw [hw]; exact s4 c hc
         · intro w hw; exact s4 w (List.mem_of_mem_erase hw)
         · intro hst; exact absurd (h1 hst) hnD
-        · intro hsd
-          refine ⟨(h5 hsd).1, ?_⟩
-          rcases (h5 hsd).2 with hcf | hD
-          · exact Or.inl hcf
-          · exact absurd hD hnD
+        · intro hsd; exact absurd (h5 hsd) hnD
       · exact ⟨hs, h⟩
     · exact ⟨hs, h⟩
 
@@ -435,8 +475,10 @@ theorem P_gatherState (e : Ep) (d : List (List (Nat × Nat))) (h : P e) : P (gat
 theorem P_gather (e : Ep) (d : List (List (Nat × Nat))) (h : P e) : P (gather e d).1 := by
   simp only [gather]
   split
-  · exact P_gatherShut e h
-  · exact P_gatherState _ d (P_gatherPrio e h)
+  · exact ⟨h.1, h.2.congr rfl⟩
+  · split
+    · exact P_gatherShut e h
+    · exact P_gatherState _ d (P_gatherPrio e h)
 
 theorem gatherShut_wSC (e : Ep) : (gatherShut e).1.wSC = false := by
   simp only [gatherShut]
@@ -476,20 +518,10 @@ theorem gatherState_dead (e : Ep) (d : List (List (Nat × Nat))) : (gatherState 
 theorem gather_dead (e : Ep) (d : List (List (Nat × Nat))) : (gather e d).1.dead = e.dead := by
   simp only [gather]
   split
-  · exact gatherShut_dead e
-  · simp [gatherState_dead, gatherPrio_dead]
-
-/-- the write loop is told to close only after SHUTDOWN-COMPLETE went out -/
-theorem gather_not_ok (e : Ep) (d : List (List (Nat × Nat))) (h : (gather e d).2.2 = false) :
-    e.wSC = true ∧ (gather e d).1 = (gatherShut e).1 := by
-  simp only [gather] at h ⊢
-  split
-  · rename_i hw; exact ⟨hw, rfl⟩
-  · rename_i hw
-    have hw : e.wSC = false := by simpa using hw
-    rw [if_neg (by simp [hw])] at h
-    simp only [gatherState_ok _ d (gatherPrio_wSC e hw)] at h
-    cases h
+  · rfl
+  · split
+    · exact gatherShut_dead e
+    · simp [gatherState_dead, gatherPrio_dead]
 
 theorem writeLoopPass_inv (e : Ep) (d : List (List (Nat × Nat))) (h : EpInv e) : EpInv (writeLoopPass e d).1 := by
   simp only [writeLoopPass]
@@ -505,14 +537,7 @@ theorem writeLoopPass_inv (e : Ep) (d : List (List (Nat × Nat))) (h : EpInv e) 
       simp [hnd] at this
     split
     · exact ⟨hP.1, hP.2, by rw [gather_dead]; exact hE _⟩
-    · rename_i hok
-      have hok : (gather e d).2.2 = false := by simpa using hok
-      obtain ⟨hw, heq⟩ := gather_not_ok e d hok
-      refine ⟨hP.1, close_ctl _ hP.2 ?_, hE _⟩
-      intro _
-      right
-      rw [heq, gatherShut_snd]
-      exact h.ctl.drained (h.ctl.wscSt hw hnd)
+    · exact ⟨hP.1, close_ctl_live _ hP.2 (by rw [gather_dead]; exact hnd), hE _⟩
 
 /-! ### inbound packets -/
 theorem handleData_closed (e : Ep) (t m s k : Nat) (h : e.st = 0) : handleData e t m s k = e := by
@@ -550,6 +575,7 @@ theorem handleChunk_inv (e : Ep) (c : Chunk) (h : EpInv e) : EpInv (handleChunk 
   | shutdownComplete =>
     exact ⟨by simp only [handleChunk, handleShutdownComplete_snd]; exact h.snd, handleShutdownComplete_ctl e h.ctl,
       handleShutdownComplete_eof e h.eof⟩
+  | abort => exact ⟨h.snd, close_ctl_any e h.ctl, close_eof e h.eof⟩
 
 theorem foldl_handleChunk_inv (p : Pkt) (e : Ep) (h : EpInv e) : EpInv (p.foldl handleChunk e) := by
   induction p generalizing e with
@@ -571,12 +597,12 @@ theorem onStream_append (l : List Msg) (w : Msg) (s : Nat) :
   by_cases h : w.2.1 = s <;> simp [h]
 
 theorem write_inv (e : Ep) (s : Nat) (h : EpInv e) : EpInv (write e s).1 := by
-  obtain ⟨⟨s1, s2, s3, s4, s5⟩, ⟨h1, h2, h3, h4, h5, h6⟩, he⟩ := h
+  obtain ⟨⟨s1, s2, s3, s4, s5⟩, ⟨h1, h2, h3, h4, h5, h6, h7, h8, h9⟩, he⟩ := h
   simp only [write]
   split
   · rename_i hst
     have hst : e.st = 3 := by simpa using hst
-    refine ⟨⟨s1, ?_, ?_, ?_, ?_⟩, ⟨?_, h2, h3, h4, ?_, ?_⟩, he⟩
+    refine ⟨⟨s1, ?_, ?_, ?_, ?_⟩, ⟨?_, h2, h3, h4, ?_, ?_, h7, h8, h9⟩, he⟩
     · intro w hw
       simp only [List.mem_append, List.mem_singleton] at hw ⊢
       rcases hw with hw | hw
@@ -602,9 +628,9 @@ theorem write_inv (e : Ep) (s : Nat) (h : EpInv e) : EpInv (write e s).1 := by
           List.range_succ, Ep.nextSsn, onStream, this]
       · exact s5 s'
     · intro hx; simp [hst] at hx
-    · intro hsd; have := h4.1 (h5 hsd).1; simp [hst] at this
+    · intro hsd; have := h4.1 (h8 (Or.inl hsd)); simp [hst] at this
     · intro hsd; have := (h6 hsd).1; simp [hst] at this
-  · exact ⟨⟨s1, s2, s3, s4, s5⟩, ⟨h1, h2, h3, h4, h5, h6⟩, he⟩
+  · exact ⟨⟨s1, s2, s3, s4, s5⟩, ⟨h1, h2, h3, h4, h5, h6, h7, h8, h9⟩, he⟩
 
 theorem shutdownCall_snd (e : Ep) : (shutdownCall e).1.snd = e.snd := by
   simp only [shutdownCall]; (repeat' split) <;> rfl
@@ -634,10 +660,19 @@ theorem closeConn_inv (e : Ep) (h : EpInv e) : EpInv (closeConn e) := by
   simp only [closeConn]
   split
   · exact h
-  · have h' : CtlInv { e with connFailed := true } := by
-      obtain ⟨h1, h2, h3, h4, h5, h6⟩ := h.ctl
-      exact ⟨h1, h2, h3, h4, fun hsd => ⟨(h5 hsd).1, Or.inl rfl⟩, h6⟩
-    exact ⟨h.snd, close_ctl _ h' (fun _ => Or.inl rfl), close_eof e h.eof⟩
+  · rename_i hnd
+    have hnd : e.dead = false := by simpa using hnd
+    exact ⟨h.snd, (close_ctl_live e h.ctl hnd).congr rfl, close_eof e h.eof⟩
+
+theorem closeApi_inv (e : Ep) (h : EpInv e) : EpInv (closeApi e) := by
+  simp only [closeApi]
+  split
+  · exact h
+  · rename_i hnd
+    have hnd : e.dead = false := by simpa using hnd
+    exact ⟨h.snd, close_ctl_live e h.ctl hnd, close_eof e h.eof⟩
+
+theorem abortCall_inv (e : Ep) (h : EpInv e) : EpInv (abortCall e) := ⟨h.snd, h.ctl.congr rfl, h.eof⟩
 
 /-! ### reading -/
 theorem drain_eofs (n : Nat) (r : Rcv) (s : Nat) : (drain n r s).eofs = r.eofs := by
